@@ -645,6 +645,13 @@ func (d *protoDom) normInt(st *sState, t *pt) *pt {
 		if t.k%8 == 0 {
 			bound = widthBound(t.k / 8)
 		}
+		// intervals first (bytes, carries, shifts): no facts needed, and the LP knows nothing about shifts
+		if lo, hi := ptRange(inner); lo != nil && hi != nil {
+			if lo.Sign() >= 0 && hi.Cmp(bound.n) < 0 {
+				return inner
+			}
+			return &pt{op: "trunc", args: []*pt{inner}, k: t.k}
+		}
 		if proveP(st.pfacts, inner, token.GEQ, pC(0)) && proveP(st.pfacts, inner, token.LSS, bound) {
 			return inner
 		}
@@ -681,4 +688,123 @@ func (d *protoDom) decideCmp(st *sState, a *pt, op token.Token, b *pt) (bool, bo
 		return false, true
 	}
 	return false, false
+}
+
+// ptRange: the interval of an integer term from its shape alone (nil: unbounded or unknown on that side)
+func ptRange(t *pt) (lo, hi *big.Int) {
+	switch t.op {
+	case "c":
+		return t.n, t.n
+	case "byte":
+		return big.NewInt(0), big.NewInt(255)
+	case "brw", "needexp", "asmret":
+		return big.NewInt(0), big.NewInt(1)
+	case "len", "cap", "val":
+		return big.NewInt(0), nil
+	case "rem":
+		return big.NewInt(0), new(big.Int).Sub(new(big.Int).Lsh(big.NewInt(1), uint(t.k)), big.NewInt(1))
+	case "trunc":
+		max := new(big.Int).Sub(new(big.Int).Lsh(big.NewInt(1), uint(t.k)), big.NewInt(1))
+		l, h := ptRange(t.args[0])
+		if l != nil && h != nil && l.Sign() >= 0 && h.Cmp(max) <= 0 {
+			return l, h
+		}
+		return big.NewInt(0), max
+	case "shr", "quo":
+		sh := uint(t.k)
+		if t.op == "shr" {
+			if t.n == nil || !t.n.IsInt64() {
+				return nil, nil
+			}
+			sh = uint(t.n.Int64())
+		}
+		l, h := ptRange(t.args[0])
+		if l == nil || l.Sign() < 0 {
+			return nil, nil
+		}
+		lo = new(big.Int).Rsh(l, sh)
+		if h != nil {
+			hi = new(big.Int).Rsh(h, sh)
+		}
+		return lo, hi
+	case "or":
+		// of non-negative operands: between the largest lower bound and the sum of the upper bounds
+		lo, hi = big.NewInt(0), big.NewInt(0)
+		for _, a := range t.args {
+			l, h := ptRange(a)
+			if l == nil || l.Sign() < 0 {
+				return nil, nil
+			}
+			if l.Cmp(lo) > 0 {
+				lo = l
+			}
+			if hi != nil && h != nil {
+				hi = new(big.Int).Add(hi, h)
+			} else {
+				hi = nil
+			}
+		}
+		return lo, hi
+	case "add":
+		lo, hi = big.NewInt(0), big.NewInt(0)
+		for _, a := range t.args {
+			l, h := ptRange(a)
+			if lo != nil && l != nil {
+				lo = new(big.Int).Add(lo, l)
+			} else {
+				lo = nil
+			}
+			if hi != nil && h != nil {
+				hi = new(big.Int).Add(hi, h)
+			} else {
+				hi = nil
+			}
+		}
+		return lo, hi
+	case "neg":
+		l, h := ptRange(t.args[0])
+		if h != nil {
+			lo = new(big.Int).Neg(h)
+		}
+		if l != nil {
+			hi = new(big.Int).Neg(l)
+		}
+		return lo, hi
+	case "mul":
+		for i := 0; i < 2 && len(t.args) == 2; i++ {
+			if c := t.args[i]; c.op == "c" {
+				l, h := ptRange(t.args[1-i])
+				if c.n.Sign() < 0 {
+					l, h = h, l
+				}
+				if l != nil {
+					lo = new(big.Int).Mul(l, c.n)
+				}
+				if h != nil {
+					hi = new(big.Int).Mul(h, c.n)
+				}
+				return lo, hi
+			}
+		}
+	}
+	return nil, nil
+}
+
+// rangeProves: a OP b follows from the shapes of the two terms alone
+func rangeProves(a *pt, op token.Token, b *pt) bool {
+	al, ah := ptRange(a)
+	bl, bh := ptRange(b)
+	switch op {
+	case token.GEQ:
+		return al != nil && bh != nil && al.Cmp(bh) >= 0
+	case token.GTR:
+		return al != nil && bh != nil && al.Cmp(bh) > 0
+	case token.LEQ:
+		return ah != nil && bl != nil && ah.Cmp(bl) <= 0
+	case token.LSS:
+		return ah != nil && bl != nil && ah.Cmp(bl) < 0
+	case token.NEQ:
+		return (al != nil && bh != nil && al.Cmp(bh) > 0) || (ah != nil && bl != nil && ah.Cmp(bl) < 0)
+	}
+	return false
 }
